@@ -87,6 +87,10 @@ def gen(rng, entry, max_ops=24, modes=("w", "r", "rw")):
     # the PEAK clamp of scripts.gen_rw_script keys on the name "wav"; the other float writers with a PEAK chunk get the same treatment
     key = "wav" if (name in ("aiff", "caf") and codec in (FLT, DBL)) else name
     text = S.gen_rw_script(rng, (key, fmt, codec), max_ops=max_ops, modes=modes, ch=ch)
+    if rng.random() < 0.2:
+        # the rates where the 16-bit rate fields (SVX, MPC2K) saturate and MAT5 changes its rate element
+        import re
+        text = re.sub(r" sr=\d+", " sr=%d" % rng.choice([65535, 65536]), text)
     return text, ch
 
 
